@@ -316,6 +316,24 @@ def c11_models(tier):
     return ms
 
 
+def chain_members_model():
+    """a space listing the chain AND the later contracts of the same chain (legal: when the space is built the lead is the
+    front contract, which is not listed).  After the roll the chain resolves to a contract that is also listed in its own
+    right - with a zero of its own in every action that only targets the chain: the chain's weight still goes to it"""
+    days = [1, 2, 3, 4, 10]
+    grid = [36000 + DAY * d for d in days]
+    ltd = [3 * DAY, 101 * DAY, 192 * DAY]
+    exp = [11 * DAY, 109 * DAY, 200 * DAY]
+    paths = {"S1": [8, 8, 12, 12, 8], "H19": [12, 12, 16, 12, 12], "M19": [12, 16, 16, 12, 8], "U19": [16, 16, 12, 12, 12]}
+    ev = bars(grid, paths, 0)
+    ev += [Rec(t=exp[0], kind="d", c="H19", bid=0, ask=0), Rec(t=exp[1], kind="d", c="M19", bid=0, ask=0),
+           Rec(t=exp[2], kind="d", c="U19", bid=0, ask=0)]
+    cs = ["S1", "H19", "M19", "U19"]
+    return full_model("chain-and-later-members", cs, ["CH", "M19", "U19", "S1"], grid, ev,
+                      [{"CH": H}, {"CH": -H, "S1": H}, {"U19": H}], lats=(0,), delays=(0,), fees="free", maxsteps=4,
+                      chain=["H19", "M19", "U19"], chain_ltd=ltd, chain_exp=exp, deposit=F(100000), invariants=["LedgerReplay"])
+
+
 def c11(tier, seed):
     from . import calendar_check
     rep = core.Report("C11", tier, seed)
